@@ -170,10 +170,10 @@ class Bits(Mapping):
         self.variable = variable
         self.read()
 
-    @staticmethod
-    def _get_bits(key):
+    def _get_bits(self, key):
         if isinstance(key, slice):
-            bits = range(key.start or 0, key.stop, key.step or 1)
+            # Open ends refer to the first and last bit of the variable
+            bits = range(*key.indices(len(self.variable.od)))
         elif isinstance(key, int):
             bits = [key]
         else:
